@@ -160,15 +160,15 @@ Print Assumptions C17_ht_pct_wraps_refuted.
 (* 3. dictionary: reference counts balance                                                          *)
 (* ------------------------------------------------------------------------------------------------ *)
 (* Specification: a finite map f : string -> number of references.  sstep/srun (DictP.v):
-     insert s : answers (LY_SUCCESS, s), f s := f s + 1
+     insert s, insert_zc s : answers (LY_SUCCESS, s), f s := f s + 1
      remove s : f s = 0 -> (LY_ENOTFOUND), f unchanged; otherwise (LY_SUCCESS), f s := f s - 1
      dup s    : f s = 0 -> (LY_ENOTFOUND), f unchanged; otherwise (LY_SUCCESS, s), f s := f s + 1
    [dcnt d cs x] = the reference count the table d stores for x (0 when there is no record);
    [DRep d cs fl] = Rep + load factor + one record per string, stored under hash lyht_hash(string), with
    1 <= refcount < 2^32. *)
 
-(* For every script of lydict_insert / lydict_remove / lydict_dup on a fresh dictionary (lydict_init is
-   k = 10) - removes and dups of strings that are not held included - the C functions run to completion
+(* For every script of lydict_insert / lydict_insert_zc / lydict_remove / lydict_dup on a fresh dictionary
+   (lydict_init is k = 10) - removes and dups of strings that are not held included - the C functions run to completion
    (no assertion, no out-of-bounds access), give the answers of the finite map, and the table ends up
    storing exactly the finite map: a record for precisely the strings with a positive count, with that
    count. *)
